@@ -660,6 +660,27 @@ def concurrent_phase(ctx, env, docs, n_req, rounds):
                 if dis:
                     yield {'kind': 'oracle', 'what': 'front-ends disagree on the same input and configuration: %s' % json.dumps(dis)[:700],
                            'case': {'history': hist, 'index': len(obs) - 1, 'class': 'disagree'}, 'observed': dis['b'], 'expected': dis['a']}
+        # ---- transform_file from the same threads, every request between two files of its own: each output file must hold
+        #      exactly what transform_str returns for that input and configuration
+        freqs = [(rng.choice(CFG_CHOICES), rng.choice(docs).encode('utf-8')) for _ in range(n_req)]
+        meas.ensure([(inp, cfg) for cfg, inp in freqs])
+        fout, _ = lib.run_lines(lib.HARNESS_BIN, ['120000'], ['f\tfe_conc\t%d\t%s' % (nthreads, ','.join('f:%s:%s' % (enc_cfg(cfg), inp.hex()) for cfg, inp in freqs))], timeout=300)
+        fr = fout.get('f') or []
+        fparts = fr[1].split(';') if len(fr) > 1 and fr[0] == 'OK' else []
+        if len(fparts) != len(freqs):
+            yield {'kind': 'oracle', 'what': 'transform_file calls from %d threads did not all return: %s' % (nthreads, fr[:1]), 'case': {'class': 'threads'}, 'observed': fr[:1], 'expected': '%d results' % len(freqs)}
+        else:
+            for (cfg, inp), part in zip(freqs, fparts):
+                res = parse_lib(part.split(':')); t = meas.get(inp, cfg)
+                st['evaluations'] += 1
+                if t[0] == 'X' or res[0] == 'X':
+                    continue
+                same = (t[0] == 'O' and res[0] == 'O' and t[1] == res[1]) or (t[0] == 'E' and res[0] == 'E')
+                if not same:
+                    yield {'kind': 'oracle', 'what': 'transform_file run from %d threads at once (separate files per call) left something else in its output file than transform_str returns: config %s, input %r: %s vs %s'
+                           % (nthreads, cfg, inp[:300], (res[0], res[1][:200] if len(res) > 1 else None), (t[0], t[1][:200] if len(t) > 1 else None)),
+                           'case': {'class': 'file-concurrent', 'cfg': cfg, 'input': inp.decode('utf-8', 'replace')}, 'observed': str(res[:2])[:600], 'expected': str(t[:2])[:600]}
+                    break
         st['evaluations'] += len(obs)
         case = Case('conc%d' % rd, 'front', [
             ','.join('%s:%s:%s' % (k[0].hex(), hx(k[1]), enc_tres(t)) for k, t in tbl.items()),
